@@ -44,6 +44,51 @@ func (e *Engine) installIntrinsics(pkgPath string) {
 		e.strVars[name] = s
 		return s, true
 	}
+	nilFunc := func(e *Engine, fr *Frame, c *Ctx, a []Value, _ *ssa.CallCommon) (Value, bool) { return FuncV{}, true }
+	e.intercept["github.com/go-openapi/analysis/internal/debug.GetLogger"] = nilFunc
+	e.intercept["os.Getenv"] = func(e *Engine, fr *Frame, c *Ctx, a []Value, _ *ssa.CallCommon) (Value, bool) { return StrC(""), true }
+	e.intercept[p+"vrfParam"] = func(e *Engine, fr *Frame, c *Ctx, a []Value, _ *ssa.CallCommon) (Value, bool) {
+		if v, ok := e.Params[concreteStr(a[0])]; ok {
+			return IntV{BV(64, uint64(int64(v)))}, true
+		}
+		return a[1], true
+	}
+	e.intercept[p+"vrfRegister"] = func(e *Engine, fr *Frame, c *Ctx, a []Value, _ *ssa.CallCommon) (Value, bool) {
+		return BoolV{TTrue}, true
+	}
+	e.intercept[p+"vrfKnown"] = func(e *Engine, fr *Frame, c *Ctx, a []Value, _ *ssa.CallCommon) (Value, bool) {
+		key := concreteStr(a[0])
+		if !e.OpenKeys[key] {
+			return nil, true
+		}
+		cond := a[1].(BoolV).T
+		if e.KnownMode == "confirm:"+key {
+			c.S.PC = And(c.S.PC, cond)
+		} else {
+			c.S.PC = And(c.S.PC, Not(cond))
+		}
+		return nil, !c.S.PC.IsFalse()
+	}
+	e.intercept[p+"vrfEager"] = func(e *Engine, fr *Frame, c *Ctx, a []Value, _ *ssa.CallCommon) (Value, bool) {
+		e.eager[concreteStr(a[0])] = true
+		return nil, true
+	}
+	e.intercept[p+"vrfMapOrder"] = func(e *Engine, fr *Frame, c *Ctx, a []Value, _ *ssa.CallCommon) (Value, bool) {
+		t := a[0].(BoolV).T
+		if !t.IsConst() {
+			unsup("vrfMapOrder needs a constant")
+		}
+		e.MapOrderND = t.IsTrue()
+		return nil, true
+	}
+	e.intercept[p+"vrfFreeze"] = func(e *Engine, fr *Frame, c *Ctx, a []Value, _ *ssa.CallCommon) (Value, bool) {
+		e.frozen = e.nextObj
+		return nil, true
+	}
+	e.intercept[p+"vrfThaw"] = func(e *Engine, fr *Frame, c *Ctx, a []Value, _ *ssa.CallCommon) (Value, bool) {
+		e.frozen = 0
+		return nil, true
+	}
 	e.intercept[p+"vrfAssume"] = func(e *Engine, fr *Frame, c *Ctx, a []Value, _ *ssa.CallCommon) (Value, bool) {
 		c.S.PC = And(c.S.PC, a[0].(BoolV).T)
 		return nil, !c.S.PC.IsFalse()
